@@ -409,11 +409,10 @@ impl LineSplitter {
             }
         }
 
-        // Add the last field
-        if start < line.len() {
-            if let Ok(field) = std::str::from_utf8(&line.as_bytes()[start..]) {
-                self.buffer.push(field.to_string());
-            }
+        // Add the last field, also when it is empty (a trailing delimiter, or an empty
+        // line), exactly as `str::split` does for the other strategies
+        if let Ok(field) = std::str::from_utf8(&line.as_bytes()[start..]) {
+            self.buffer.push(field.to_string());
         }
     }
 }
